@@ -4,8 +4,10 @@
 
 mod c04;
 mod c05;
+mod c07;
 mod c10;
 mod c11;
+mod c13;
 mod refcodec;
 mod refvmess;
 mod ssudp;
@@ -26,8 +28,12 @@ fn main() {
         "c05-replay" => c05::replay(rest),
         "c05-record" => c05::record(rest),
         "c05-udp" => c05::udp(rest),
+        "c07-malformed" => c07::malformed(rest),
+        "c07-garbage" => c07::garbage(rest),
         "c10-replay" => c10::replay(rest),
         "c10-record" => c10::record(rest),
+        "c13-grammar" => c13::grammar(rest),
+        "c13-local" => c13::local(rest),
         "c11-replay" => c11::replay(rest),
         "c11-record" => c11::record(rest),
         other => Err(anyhow::anyhow!("unknown subcommand {other}")),
